@@ -1,20 +1,27 @@
 /-
 Line-protocol driver for the C19 model (query pipeline).
 
-  new <node> <node> ...      stage tree in preorder, node = <S|A><o|e|p><#children>
-                             (S sync / A pooled; o ok / e error / p panic); runs the caller of
-                             pipeline.Execute up to its first gate
+  new <node> <node> ...      stage tree in preorder, node = <S|A|X|C><o|e|p|l|n><#children>
+                             (S sync / A pooled / X pooled on a stopped pool / C pooled with a
+                             cancelled context on a saturated pool — X and C: the pool rejects the task;
+                             o ok / e error / p execution panics / l Plan() panics / n NextStages()
+                             panics); runs the caller of pipeline.Execute up to its first gate
   rel <k>                    goroutine k (0 = caller of Execute, k = k-th submitted task) is parked at
                              the gate in front of a stage execution: release it and run it to its next
                              gate or to its end
   end                        final observation
   leaf-new | leaf-send <nil|err>     LeafExecuteContext.SendResponse
+  leafreq <node> ... | leafreq - | leafreq x    one request on the real leaf path whose stages form this tree
+                             (`-`: the request is refused before a pipeline exists and the task
+                             handler answers; `x`: the task handler's own pool rejects the request): the tree is run to the end (lowest runnable goroutine
+                             first — by the theorems the answer does not depend on the schedule) and
+                             the responses `LeafExecuteContext.SendResponse` produces are reported
 
 A *gate* is the point in front of `stage.execute(node)` (instruction `exec`): the only place where
 the harness can park a goroutine of the real code without touching lindb's source.  `rel` is a
 sequence of atomic model steps of one goroutine, so every harness schedule is a model schedule.
-The variant of the model is selected by the regenerated facts `completePassesFirstError` and
-`stageRecoversPanic`.
+The variant of the model is selected by the regenerated facts `completePassesFirstError`,
+`stageRecoversPanic` and `submitRejectNotifies`.
 -/
 import LinVerif.Util.Proto
 import LinVerif.Model.Pipeline
@@ -23,7 +30,8 @@ import LinVerif.Generated.C19
 namespace LinVerif.Driver.C19
 open LinVerif LinVerif.Pipeline
 
-def cfg : Cfg := cfgOf Generated.C19.completePassesFirstError Generated.C19.stageRecoversPanic
+def cfg : Cfg :=
+  cfgOf Generated.C19.completePassesFirstError Generated.C19.stageRecoversPanic Generated.C19.submitRejectNotifies
 
 structure St where
   pipe : Option State
@@ -31,14 +39,18 @@ structure St where
 
 def St.init : St := ⟨none, Leaf.init⟩
 
-def parseNode (w : String) : Option (Bool × Outcome × Nat) :=
+def parseNode (w : String) : Option (Run × Bool × Outcome × Nat) :=
   match w.toList with
   | a :: o :: k =>
-    let async? : Option Bool := if a = 'S' then some false else if a = 'A' then some true else none
-    let out? : Option Outcome :=
-      if o = 'o' then some .ok else if o = 'e' then some .error else if o = 'p' then some .panic else none
-    match async?, out?, (String.ofList k).toNat? with
-    | some a, some o, some n => some (a, o, n)
+    let run? : Option Run :=
+      if a = 'S' then some .inline else if a = 'A' then some .pooled
+      else if a = 'X' || a = 'C' then some .rejected else none
+    let out? : Option (Bool × Outcome) :=
+      if o = 'o' then some (false, .ok) else if o = 'e' then some (false, .error)
+      else if o = 'p' then some (false, .panic) else if o = 'l' then some (true, .ok)
+      else if o = 'n' then some (false, .nextPanic) else none
+    match run?, out?, (String.ofList k).toNat? with
+    | some r, some (pp, o), some n => some (r, pp, o, n)
     | _, _, _ => none
   | _ => none
 
@@ -46,8 +58,8 @@ def parseNode (w : String) : Option (Bool × Outcome × Nat) :=
 def parseTree (ws : List String) : Option Stage :=
   let r : Option (List Stage) := ws.foldr (fun w acc =>
     match acc, parseNode w with
-    | some stack, some (a, o, k) =>
-      if stack.length < k then none else some (Stage.mk a o (stack.take k) :: stack.drop k)
+    | some stack, some (r, pp, o, k) =>
+      if stack.length < k then none else some (Stage.mk r pp o (stack.take k) :: stack.drop k)
     | _, _ => none) (some [])
   match r with
   | some [root] => some root
@@ -71,6 +83,16 @@ def runToGate : Nat → State → Nat → State
     | none => s
 
 def fuel : Nat := 100000
+
+/-- run to the end: always the lowest-numbered goroutine that still has an instruction -/
+def runAll : Nat → State → State
+  | 0, s => s
+  | n + 1, s =>
+    match (List.range s.threads.length).find? (fun k => (stepAt cfg s k).isSome) with
+    | some k => match stepAt cfg s k with
+      | some s' => runAll n s'
+      | none => s
+    | none => s
 
 def gates (s : State) : List Nat :=
   (List.range s.threads.length).filter (fun k => match s.threads[k]? with | some t => atGate t | none => false)
@@ -115,6 +137,20 @@ def step (st : St) (ws : List String) : St × String :=
   | ["end"] =>
     match st.pipe with
     | some s => ({ st with pipe := none }, final s)
+    | none => (st, "bad-op")
+  | ["leafreq", "-"] => (st, "responses=1 resp=err")
+  | ["leafreq", "x"] =>
+    -- the task handler's own pool rejects the request: answered only if Submit notifies the handler
+    (st, if cfg.rejectNotifies then "responses=1 resp=err" else "responses=0 resp=-")
+  | "leafreq" :: toks =>
+    match parseTree toks with
+    | some root =>
+      let s := runAll fuel (Pipeline.init root)
+      let rs := responses s.sh.fired
+      let shown := match rs with
+        | [] => "-"
+        | r :: _ => if r then "err" else "nil"
+      (st, s!"responses={rs.length} resp={shown}")
     | none => (st, "bad-op")
   | ["leaf-new"] => ({ st with leaf := Leaf.init }, "ok")
   | ["leaf-send", e] =>
